@@ -283,9 +283,15 @@ def _wrapped_mats(cspec):
     """exact matrices of the operations whose gate is neither a plain built-in nor a plain custom gate"""
     out = {}
     for i, o in enumerate(cspec["ops"]):
-        if "g" in o and "gate" not in o["g"] and "custom" not in o["g"]:
+        if "g" in o and _raw_angles(o["g"]):
+            out[str(i)] = None   # entries are not Gaussian rationals: the step is judged by the oracle only
+        elif "g" in o and "gate" not in o["g"] and "custom" not in o["g"]:
             out[str(i)] = _try(lambda: _exact_matrix(circ.build_gate(o["g"])))
     return out
+
+
+def _raw_angles(g):
+    return "gate" in g and any(isinstance(a, dict) for a in g.get("angles", []))
 
 
 def _circuit_obs(case, cspec, with_unitary=True):
@@ -602,7 +608,7 @@ def _model_op(o, wrapped, i):
     if "mphase" in o:
         return {"mphase": o["mphase"]}
     g = o["g"]
-    if "gate" in g:
+    if "gate" in g and not _raw_angles(g):
         return {"gate": g["gate"], "angles": g["angles"], "qs": o["qs"]}
     if "custom" in g:
         return {"m": g["m"], "qs": o["qs"]}
@@ -1633,6 +1639,34 @@ def _h_incremental(rng, big):
     return {"kind": "hist", "circs": [donor, start], "sims": [], "vecs": [], "steps": steps}
 
 
+def _twin_circuit(rng, n):
+    """operations that differ only in a place where Python's hash does not see the difference (hash(-1) == hash(-2), also for
+    -1.0 / -2.0 and as exponents): both twins in ONE circuit on the same qubits, next to ordinary gates – a table keyed by a
+    hash (of the operation, the gate, the parameters) hands the second twin the first one's matrix"""
+    def par(name, x, as_int):
+        k = circ.BUILTIN_PARAMS[name]
+        return {"gate": name, "angles": [dict({"raw": str(x)}, **({"int": True} if as_int else {})) for _ in range(k)]}
+    ops = []
+    for _ in range(rng.randrange(2, 4)):
+        r = rng.random()
+        if r < 0.55:
+            name = rng.choice([nm for nm in ("RX", "RY", "RZ", "PHASE", "RH", "GPi", "GPi2", "U3") ] +
+                              ([nm for nm in ("CPHASE", "XX", "YY", "ZZ", "XY", "MS")] if n >= 2 else []))
+            qs = rng.sample(range(n), circ.BUILTIN_QUBITS[name])
+            as_int = rng.random() < 0.4
+            a, b = rng.choice([(-1, -2), (-2, -1)])
+            pair = [{"g": par(name, a, as_int), "qs": qs}, {"g": par(name, b, as_int and rng.random() < 0.7), "qs": qs}]
+        else:
+            base = rng.choice([{"gate": "S", "angles": []}, {"gate": "SX", "angles": []}, _monomial(rng, 1),
+                               {"gate": "ISWAP", "angles": []} if n >= 2 else {"gate": "S", "angles": []}])
+            qs = rng.sample(range(n), circ.spec_num_qubits(base))
+            a, b = rng.choice([("-1", "-2"), ("-2", "-1")])
+            pair = [{"g": {"power": base, "e": a}, "qs": qs}, {"g": {"power": base, "e": b}, "qs": qs}]
+        filler = [_op(rng, n, _unitary_gate(rng, n, 2)) for _ in range(rng.randrange(0, 2))]
+        ops += [pair[0]] + filler + [pair[1]]
+    return ops
+
+
 def _histories(rng, big):
     plan = [(_h_sim_states, 5), (_h_sim_circuits, 7), (_h_ephemeral, 4), (_h_setvec, 2), (_h_ops, 5), (_h_circuit, 5),
             (_h_interleaved, 3), (_h_long, 2), (_h_incremental, 2)]
@@ -1855,6 +1889,7 @@ def generate(rng, tier):
         cases.append({"kind": "add_op", "a": a, "op": _op(rng, nb, g), "sym": "none"})
     # --- histories on long-lived objects (simulators, circuits, operations, arrays), wide registers, long programs
     cases += _histories(rng, big)
+    cases += _twin_cases(rng, big)
     # --- malformed stream
     for _ in range(40 if big else 8):
         n = rng.choice([2, 3])
@@ -1894,6 +1929,18 @@ def _gate_nontrivial(o, n):
     if len(qs) >= 2 and any(b != a + 1 for a, b in zip(qs, qs[1:])):
         return True
     return False
+
+
+def _twin_cases(rng, big):
+    out = []
+    for _ in range(24 if big else 8):
+        n = rng.randrange(1, 4)
+        ops = _twin_circuit(rng, n)
+        if rng.random() < 0.6:
+            out.append({"kind": "circuit", "n": rng.choice([None, n]), "ops": ops, "v": _gvec(rng, n), "sym": "none"})
+        else:
+            out.append({"kind": "sim", "n": n, "ops": ops, "v": rng.choice([None, _unit_vec(rng, n)]), "native": _native(rng, n)})
+    return out
 
 
 def nontrivial(case):
